@@ -768,7 +768,14 @@ func TestPMap(t *testing.T) {
 
 func propPlain(t *rapid.T) {
 	n := rapid.IntRange(0, 40).Draw(t, "len")
-	vals := make([]int, n)
+	// the list is often a prefix of a larger array (an append-grown slice, xs[:n]): what lies beyond its length
+	// is not part of the list
+	spare := rapid.SampledFrom([]int{0, 0, 1, 3, 17}).Draw(t, "spareCapacity")
+	backing := make([]int, n+spare)
+	for i := range backing {
+		backing[i] = 777
+	}
+	vals := backing[:n]
 	for i := range vals {
 		vals[i] = rapid.IntRange(0, 9).Draw(t, "val")
 	}
